@@ -608,8 +608,11 @@ def c04_twins(tier):
 def gen_cases_c04(tier):
     keys = []
     for k in root_keys(tier, ["disl", "yield"], dev=1, prms=C04_PRMS):
-        for tw in c04_twins(tier):
-            kk = dict(k, twin=tw, depth=2 if tier == "quick" else 3)
+        for j, tw in enumerate(c04_twins(tier)):
+            # thorough: depth 3 for one cube, two generic frames and one lattice pattern,
+            # depth 2 for the remaining twins (keeps the tier at ~20-30 minutes)
+            deep = tier != "quick" and tw in ("Q:" + list(alph.CUBE)[5], "Q:g0", "Q:gs0", "S:mod4")
+            kk = dict(k, twin=tw, depth=3 if deep else 2)
             keys.append(kk)
     # The same exploration at tight solver tolerances (rtol 1e-9, atol 1e-11 through the
     # public **kwargs of update_orientations) from the default roots: both members then
